@@ -54,14 +54,14 @@ def run1 (f : Nat → String) : List String → String
 def prStr (w : W PrimeResult) : String := s!"val={w.val.name} {flags w}"
 
 /-- Everything the harness prints for one `n` (the `P` line). -/
-def cmdP (n : Nat) : String :=
+def cmdP (withFactor : Bool) (n : Nat) : String :=
   let ip := isPrime fuel n
   let sq := isPerfectSquare n
   let mr := millerRabin 2 n
   -- strong_lucas(2^64 - 1) does not terminate (n + 1 wraps to 0); the harness skips it too
   let lucas := if n = maxU then "skipped" else (strongLucas fuel.dSearch n).val.name
   let lstuck := if n = maxU then false else (strongLucas fuel.dSearch n).stuck
-  let fac := if n > 1 then findPrimeFactor fuel table n else W.ok 0
+  let fac := if n > 1 && withFactor then findPrimeFactor fuel table n else W.ok 0
   let bad := ip.divz || ip.stuck || sq.divz || sq.stuck || mr.divz || mr.stuck || mr.wrapped ||
              lstuck || fac.divz || fac.stuck
   s!"prime={b01 ip.val} sq={b01 sq.val} mr2={mr.val.name} lucas={lucas} factor={fac.val} modelbad={b01 bad}"
@@ -97,7 +97,9 @@ def dispatchC12 : List String → Option String
   | "c12" :: "bpsw" :: args => some (run1 (fun n => prStr (bailliePSW fuel.dSearch n)) args)
   | "c12" :: "rho" :: args => some (run1 (fun n => natW (findPollardRhoFactor fuel n)) args)
   | "c12" :: "factor" :: args => some (run1 (fun n => natW (findPrimeFactor fuel table n)) args)
-  | "c12" :: "P" :: args => some (run1 cmdP args)
+  | "c12" :: "P" :: args => some (run1 (cmdP true) args)
+  -- the same without find_prime_factor (which does not terminate on a prime that is_prime rejects)
+  | "c12" :: "PQ" :: args => some (run1 (cmdP false) args)
   | "c12" :: "mag" :: args =>
     some (run1 (fun n => let w := magOfNat fuel table n; s!"{magStr w.val} {flags w}") args)
   | "c12" :: "magmul" :: args =>
